@@ -57,6 +57,10 @@ def gen_config(rng, i, tier="quick"):
         16: dict(fe="joint", nser=2, K=2, limit=3, W=4, exactW=True, beta=5.0, scalar_beta=True),
         24: dict(fe="joint", nser=3, K=2, limit=3, W=3, beta=1.0, scalar_beta=True, equal_lens=True, n_regimes=2),
         25: dict(fe="joint", nser=2, K=3, limit=3, W=2, beta=0.5, scalar_beta=True, equal_lens=True, n_regimes=3),
+        # a floor BELOW the threshold of the BIC's parameter count (2e-5): entries between the two are kept by the floor
+        # and must not be counted
+        28: dict(fe="single", nser=1, K=2, limit=3, W=2, N=2, eps=1e-7, biased=True, n_regimes=2, scale=1.0, lam_form="float"),
+        29: dict(fe="single", nser=1, K=3, limit=3, W=3, N=2, eps=1e-9, biased=False, n_regimes=3, scale=1.0, lam_form="float"),
         # a matrix sparsity weight that is NOT symmetric (the solver reads its upper triangle): a tempting target for an
         # in-place symmetrisation of the caller's matrix (C19)
         26: dict(fe="single", nser=1, K=2, limit=2, W=2, lam_form="matrix_asym", readonly=False, fortran=False, n_regimes=2),
@@ -84,7 +88,7 @@ def gen_config(rng, i, tier="quick"):
     c["limit"] = forced.get("limit", rng.choice([1, 2, 3, 4, 6, 10]))
     c["m"] = forced.get("m", rng.choice([1, 2, 3, 5, 8]))
     c["biased"] = forced.get("biased", rng.random() < 0.3)
-    c["eps"] = forced.get("eps", rng.choice([0, 0, 0, 1e-4, 1e-2]))
+    c["eps"] = forced.get("eps", rng.choice([0, 0, 0, 1e-4, 1e-2]))      # (the number of draws is kept: forced ids below)
     c["beta"] = forced.get("beta", rng.choice([0.0, 0.5, 2.0, 5.0, 20.0, 100.0]))
     c["lam"] = rng.choice([0.0, 0.01, 0.11, 0.11, 0.5, 1.0])
     c["n_regimes"] = forced.get("n_regimes", rng.choice([1, 2, 3, 4]))
@@ -239,6 +243,17 @@ def live_children():
 
 
 # ------------------------------------------------------------------------------- execution
+HANG_LIMIT_S = 900
+
+
+class HarnessHangTimeout(BaseException):
+    """Raised by the harness's alarm inside a library call that does not come back."""
+
+
+def _alarm(signum, frame):
+    raise HarnessHangTimeout(f"call still running after {HANG_LIMIT_S} s")
+
+
 def traced_run(c, fault_plan=None, keep_model=False):
     """Execute one configuration with the hooks on; returns the trace (JSON-able dict)."""
     common.use_repo()
@@ -264,7 +279,10 @@ def traced_run(c, fault_plan=None, keep_model=False):
            "lamForm": c.get("lam_form", "float"), "scale": c["scale"], "cfg": c, "scripted": bool(c.get("script"))}
     hdr["fault"] = ({"kind": "wrong_front_end"} if c.get("swap") else {"kind": "invalid_argument"} if c.get("invalid") else
                     dict(fault_plan) if fault_plan else {"kind": c.get("expect", "none")})
-    hdr["timeLimitMs"] = int(c.get("time_limit_ms", 120000))
+    # "never hangs" (C20): a call that is still running after HANG_LIMIT_S is interrupted by an alarm and recorded as
+    # a raise event of type HarnessHangTimeout, whose elapsed time fails the clause call_does_not_hang.  The limit is
+    # far above any legitimate duration (seconds), even on a machine loaded 30 times over (observed: 58 s).
+    hdr["timeLimitMs"] = int(c.get("time_limit_ms", HANG_LIMIT_S * 1000 - 5000))
     tracedir = common.scratch("run-")
     hdr["_beta_caller"] = hyper["label_switching_cost"]
     rec = sink.Recorder(hdr, tracedir)
@@ -284,6 +302,12 @@ def traced_run(c, fault_plan=None, keep_model=False):
     vh.install_sink(rec)
     res, exc = None, None
     t0 = time.time()
+    import signal
+    import threading
+    armed = threading.current_thread() is threading.main_thread()
+    if armed:
+        old_handler = signal.signal(signal.SIGALRM, _alarm)
+        signal.alarm(HANG_LIMIT_S)
     try:
         with contextlib.redirect_stdout(io.StringIO()):
             if c.get("swap"):
@@ -297,6 +321,9 @@ def traced_run(c, fault_plan=None, keep_model=False):
         children = live_children()                           # observed while the caller holds the exception
         tb = traceback.format_exc()
     finally:
+        if armed:
+            signal.alarm(0)
+            signal.signal(signal.SIGALRM, old_handler)
         vh.install_sink(None)
         faults.uninstall()
         if c.get("script"):
